@@ -20,9 +20,29 @@ let lcode = function
   | Relogin.LOk200 -> "200" | Relogin.LValidate300 -> "300"
   | Relogin.LRefused4xx -> "4xx" | Relogin.LAlready409 -> "409"
 
+(* G <key hex> <serial> <expire_in s> <update|create> <uid> <t0 ns> <t1 ns>: the temporary token of a credential
+   validation request -> <uid> <lvl> <features> <Elo> <Ehi> *)
+let tmp (w : string list) : string =
+  match w with
+  | [_; key; serial; expire_in; kind; uid; t0; t1] ->
+    let mac = fun _ _ -> List.init 32 (fun _ -> N0) in
+    let cfg = { Relogin.tc_key = bytes_of_hex key; tc_serial = z_of_string serial;
+                tc_lifetime = Token.default_lifetime (z_of_string expire_in) } in
+    let rc = if kind = "create" then Relogin.create_cred_rec (n_of_string uid) else Relogin.update_cred_rec (n_of_string uid) in
+    let one t = match Relogin.tmp_token mac cfg (z_of_string t) rc with
+      | None -> None
+      | Some (tok, _) -> Some (Relogin.tok_fields tok) in
+    (match one t0, one t1 with
+     | Some a, Some b ->
+       string_of_n a.Token.f_uid ^ " " ^ string_of_n a.Token.f_level ^ " " ^ string_of_n a.Token.f_features ^ " "
+       ^ string_of_n a.Token.f_expires ^ " " ^ string_of_n b.Token.f_expires
+     | _ -> "-")
+  | _ -> "?"
+
 let handle (w : string list) : string =
   let (c, aux) = R_c12.split_aux w in
   match c with
+  | "G" :: _ -> tmp c
   | [_; key; serial; expire_in; code_expire_in; state_ok; unvalidated; suid; slvl; t0; t1; sec] ->
     let mac = mac_of_table aux in
     let second = z_of_string "1000000000" in
